@@ -7,7 +7,7 @@ from vf import q, qlist, clist, cbool, cnat, copt, frac, fr_json
 ID = 'C11'
 COQ_DIR = 'C11'
 COQ_HEADER = 'From V Require Import Common.Num C11.Model.\nOpen Scope Q_scope.'
-RULE = ('histories of 4-16 operations over a store of 2-3 streams (single-phase Stream and MultiStream, two property packages '
+RULE = ('(a) 40 link scenarios in quick (5 per flag subset, all 8 subsets of link_with(flow, phase, TP)) between single-phase streams in different phases with ivol/imass reads, writes and get_flow on both sides in both orders before and after the link; (b) histories of 4-16 operations over a store of 2-3 streams (single-phase Stream and MultiStream, two property packages '
         'of stub chemicals whose molar volume is an injective dyadic function of (chemical, phase, T, P)): reads of the '
         'mol/mass/vol views and totals, get_flow/get_total_flow in 8 units + 3 wrong-dimension units, writes through every view '
         '(imol/imass/ivol item, set_flow, set_total_flow, F_mol/F_mass/F_vol setters), interleaved with T/P/phase/phases setters, '
@@ -136,9 +136,49 @@ def gen_op(rng):
     if k == 'alias': return [k, i]
     raise ValueError(k)
 
+def gen_link_case(rng, flags):
+    """partial/full link between two single-phase streams of one package that are in DIFFERENT phases, with view reads and
+    writes on both sides in both orders around it (the cached views must follow the flags exactly)"""
+    pkg = 0 if rng.random() < 0.7 else 1
+    n = len(PKGS[pkg])
+    def row():
+        r = [float(rng.choice([1, 2, F(1, 2), 3, 8])) for _ in range(n)]
+        if pkg == 1:
+            r[2] = 0.
+        return r
+    p1, p2 = rng.sample(['l', 'g', 's', 'L'], 2)
+    streams = [{'kind': 'S', 'pkg': pkg, 'phase': p, 'T': rng.choice(TS[:4]), 'P': rng.choice(PS[:3]), 'flow': row()}
+               for p in (p1, p2)]
+    if rng.random() < 0.3:
+        streams.append(gen_stream(rng))
+    a, b = rng.sample([0, 1], 2)
+    def touch(i):
+        k = rng.random()
+        view = rng.choice(['vol', 'vol', 'mass'])
+        if k < 0.5: return ['read', i, view]
+        if k < 0.75: return ['set', i, view, 0, rng.choice(['A_', 'B_', 'C_']), float(rng.choice(VALS[1:]))]
+        return ['get_flow', i, rng.choice([5, 6, 7, 2, 3]), 0, rng.choice(['A_', 'B_', 'C_'])]
+    ops = []
+    for i in rng.sample([a, b], rng.choice([0, 1, 2])):     # views cached before the link, on either / both sides
+        ops.append(touch(i))
+    ops.append(['link', a, b] + list(flags))
+    first, second = rng.sample([a, b], 2)                    # after the link: both sides, both orders
+    ops += [touch(first), touch(second), touch(first)]
+    if rng.random() < 0.5:
+        ops.append(rng.choice([['phase', first, rng.choice(['l', 'g', 's'])], ['T', second, rng.choice(TS)],
+                               ['unlink', rng.choice([a, b])], ['link', b, a] + [rng.random() < 0.5 for _ in range(3)]]))
+        ops += [touch(second), touch(first)]
+    return {'streams': streams, 'ops': ops}
+
+ALL_FLAGS = [[f, p, t] for f in (True, False) for p in (True, False) for t in (True, False)]
+
 def gen_cases(rng, tier):
-    n = 240 if tier == 'quick' else 5000
+    n = 200 if tier == 'quick' else 4400
+    m = 5 if tier == 'quick' else 75            # link scenarios per flag subset
     cases = []
+    for flags in ALL_FLAGS:
+        for _ in range(m):
+            cases.append(gen_link_case(rng, flags))
     for _ in range(n):
         streams = [gen_stream(rng) for _ in range(rng.choice([2, 2, 3]))]
         ops = [gen_op(rng) for _ in range(rng.randint(4, 16))]
@@ -547,8 +587,9 @@ def finding_key(case, msg):
 
 # minimised histories of the defects found in the unchanged tree (all repaired in /repo now: 071a958, efddd9f, 9fbe2c1,
 # a0ac858, 1c6e5d7, 7cf5a9b; they stay as regression cases); they run first
-CORPUS_NAMES = ['memo_phase', 'unlink_shared_cache', 'link_shared_cache', 'expand_phases_cache', 'copy_like_phase_indexer', 'reset_chemicals_container']
+CORPUS_NAMES = ['partial_link_different_phases', 'memo_phase', 'unlink_shared_cache', 'link_shared_cache', 'expand_phases_cache', 'copy_like_phase_indexer', 'reset_chemicals_container']
 CORPUS = [
+    {'streams': [{'kind': 'S', 'pkg': 0, 'phase': 'l', 'T': 320.0, 'P': 65536.0, 'flow': [2.0, 0.5, 1.0]}, {'kind': 'S', 'pkg': 0, 'phase': 'g', 'T': 320.0, 'P': 65536.0, 'flow': [1.0, 3.0, 0.0]}], 'ops': [['read', 0, 'vol'], ['link', 1, 0, True, False, True], ['read', 1, 'vol'], ['read', 0, 'vol'], ['set', 1, 'vol', 0, 'A_', 8.0], ['get_flow', 0, 5, 0, 'A_']]},   # partial_link_different_phases (flow+TP linked, phase not): views must not be shared
     {"streams": [{"kind": "S", "pkg": 0, "phase": "g", "T": 320.0, "P": 65536.0, "flow": [2.0, 0.5, 1.0]}, {"kind": "S", "pkg": 0, "phase": "s", "T": 320.0, "P": 65536.0, "flow": [2.0, 0.5, 1.0]}], "ops": [["read", 0, "vol"], ["phase", 0, "l"], ["read", 0, "vol"]]},   # memo_phase
     {"streams": [{"kind": "S", "pkg": 0, "phase": "l", "T": 320.0, "P": 65536.0, "flow": [2.0, 0.5, 1.0]}, {"kind": "S", "pkg": 0, "phase": "l", "T": 320.0, "P": 65536.0, "flow": [0.0, 0.0, 0.0]}], "ops": [["link", 1, 0, True, True, True], ["unlink", 0], ["read", 1, "mass"], ["set", 0, "mol", 0, "A_", 8.0], ["read", 0, "mass"]]},   # unlink_shared_cache
     {"streams": [{"kind": "S", "pkg": 0, "phase": "l", "T": 320.0, "P": 65536.0, "flow": [2.0, 0.5, 1.0]}, {"kind": "S", "pkg": 0, "phase": "l", "T": 320.0, "P": 65536.0, "flow": [0.0, 3.0, 0.0]}, {"kind": "S", "pkg": 0, "phase": "s", "T": 320.0, "P": 65536.0, "flow": [8.0, 3.0, 0.0]}], "ops": [["link", 2, 1, True, True, True], ["link", 1, 0, True, True, False], ["read", 1, "mass"], ["read", 2, "mass"]]},   # link_shared_cache
